@@ -131,7 +131,10 @@ def _r1_purity(run):
         thr = _pole_threshold(pyx)
         ro_flag = _table_readonly(project, name)
         div4_tuples = _div4_builds_tuples(project)
-        if pole_ok and thr is not None and thr < 1.5707963267948966 and ro_flag and div4_tuples:
+        if div4_tuples is None and pole_ok and thr is not None and thr < 1.5707963267948966 and ro_flag:
+            run.undecided("C07.R1", f, calls[0].node, "the filter hands np.asarray(tile.corners) to a routine that sorts it in place; whether every tile below level 1 carries "
+                          "its corners as a tuple (so that this is a fresh array) is not decided: tiles are produced in a way the rule does not follow", kind="filter-aliasing-unknown")
+        elif pole_ok and thr is not None and thr < 1.5707963267948966 and ro_flag and div4_tuples:
             run.holds("C07.R1", f, calls[0].node, "np.asarray(tile.corners): fresh array for _div4 tiles (tuple corners); level-1 rows alias but every "
                       "level-1 tile has a pole corner (> threshold %s) so the routine returns before its in-place sort; table is read-only" % thr,
                       threshold=thr)
@@ -175,11 +178,18 @@ def _div4_builds_tuples(project):
     from . import toastgeom
     f, tile, kids, r = toastgeom.div4_facts(project)
     if kids is None:
-        return False
+        return None              # _div4 is not followed to four Tile(..) values: unknown
     # ... and nobody but _create_level1_tiles / _div4 makes tiles (e.g. re-wrapping the corners of a finished tile in an array)
     others = [x for x in toastgeom.tile_construction_sites(project) if x[0].qual not in ("toasty.toast._create_level1_tiles", "toasty.toast._div4")]
-    if others:
+    def rewraps(c_):
+        if isinstance(c_.func, ast.Attribute) and c_.func.attr == "_replace":
+            return True
+        corners = c_.args[1] if len(c_.args) > 1 else next((k.value for k in c_.keywords if k.arg == "corners"), None)
+        return corners is not None and any(isinstance(x, ast.Attribute) and x.attr == "corners" for x in ast.walk(corners))
+    if [x for x in others if rewraps(x[1])]:
         return False
+    if others:
+        return None              # another producer of tiles whose corners are computed afresh: what it hands out is not known
     return all(len(k) == 3 and k[1][0] == "tuple" and len(k[1][1]) == 4 for k in kids)
 
 
@@ -243,6 +253,8 @@ def _r3_chunk(run):
     run.note_func(outer)
     # grid arithmetic shared with the plain samplers may live in helpers of the module (a record of sizes / scales / origins)
     ev = sym.make_evaluator(project, S, [], inline_local=True, no_inline=("_chunk_bounds",))
+    ev.inline_resolved = True          # ... or in methods of such a record (axis.locate(lon), axis.contains(ix))
+    ev.no_inline = ("_chunk_bounds", "chunk_data", "chunk_spec", "fill_into_maskable_buffer", "make_maskable_buffer", "asarray", "clear")
     ro = ev.run(outer.node)
     inner = [k for k in ro.nested]
     if not inner:
@@ -279,7 +291,11 @@ def _r3_chunk(run):
     need = [("cmp:GtE", ix_t), ("cmp:Lt", ix_t), ("cmp:GtE", iy_t), ("cmp:Lt", iy_t)]
     missing = [(op, t) for op, t in need if (op, t) not in have]
     # upper bounds are the sizes of the matching axes: ny, nx = data.shape[:2]
-    if missing:
+    if missing and ([u_ for u_ in common.unfollowed_project_calls(project, mask) if show(u_[1]).split(".")[-1] not in ("_chunk_bounds", "chunk_data", "chunk_spec", "asarray")]
+                    or [x for x in _subterms_c07(mask) if x[0] == "call" and x[1][0] == "attr" and x[1][1][0] in ("nt", "call")
+                                                                         and x[1][2] not in ("astype", "get")]):
+        run.undecided("C07.R3", outer, fills[0].node, "validity mask %s is computed by something that is not followed" % ms[:100], kind="mask-opaque")
+    elif missing:
         run.violated("C07.R3", outer, fills[0].node, "validity mask %s does not bound %s: pixels outside the chunk would index the chunk array "
                      "(wrapping or raising) instead of being left undefined" % (ms[:120], ", ".join("%s %s" % (op[4:], "ix" if t == ix_t else "iy") for op, t in missing)),
                      kind="mask-incomplete")
